@@ -43,7 +43,7 @@ def closed_models(run):
     big = vlib.NCPU >= 16
     models = [("Consolidation_MC.cfg", 5 if big else 3), ("Consolidation_MCPods.cfg", 3 if big else 2)]
     if run.tier == "thorough":
-        models += [("Consolidation_MCFull.cfg", 8 if big else 4), ("Consolidation_MC3.cfg", 8 if big else 4)]
+        models += [("Consolidation_MCFull.cfg", 8 if big else 4), ("Consolidation_MC3.cfg", 4), ("Consolidation_MC3c.cfg", 2)]
     if run.tier == "quick":
         # one TLC run per focus tries every weakening (Weak = "*price" / "*pods"): WeakDetect prints <<"REJ", rule>>
         weak = ["Consolidation_WeakAll.cfg", "Consolidation_WeakAllMulti.cfg", "Consolidation_WeakAll3.cfg", "Consolidation_WeakAllPods.cfg"]
